@@ -538,6 +538,20 @@ def f32():
     return (not imp.index.has_duplicates) and abs(float(imp.sum()) - 900.0) < 1e-9, f"impact: {imp.to_dict()}"
 
 
+@trigger("F33", ["C20"])
+def f33():
+    """rebuilding shares with a NaN entry do not add up to 1: refused"""
+    tb = base_table()
+    cfg = base_cfg()
+    ev = reb_event(tb, cfg, frac=0.05, occ=2, dur=1, tau=4, sectors={"build": 1.0, "manu": float("nan")})
+    try:
+        sim = run_loop(mk_sc(tb, cfg, [ev], T=8))
+    except Exception:
+        return True, "rejected / reported"
+    bad = bool(np.isnan(sim.rebuild_demand.to_numpy(dtype=float)[2:8]).any())
+    return (not bad) or bool(sim.has_crashed), f"accepted; NaN recorded: {bad}"
+
+
 def run_all(props=None, only=None):
     res = {}
     for fid, t in TRIGGERS.items():
